@@ -8,7 +8,7 @@
         the new allocation, and the 25% growth strictly grows for every reachable capacity.
     Everything else of C01 (allocator, lifetimes, DTD/schema code) is exploration under ASan/UBSan, see checks/C01.py. *)
 From XV Require Import C04.Spec04 C04.Model04 C04.Contract04 C04.Proofs04a C04.Proofs04b C04.Proofs04c C04.Proofs04d
-                       C04.Proofs04e C04.Inst04 C01.Model01.
+                       C04.Proofs04e C04.Proofs04g C04.Inst04 C01.Model01.
 From Coq Require Import Lia ZArith ZifyBool ZifyN ZifyNat.
 Local Open Scope N_scope.
 Ltac Zify.zify_post_hook ::= Z.div_mod_to_equations.
@@ -30,8 +30,8 @@ Proof.
 Qed.
 Print Assumptions T01_reader_inv.
 
-(** instantiated: UTF-16 (either byte order) and ISO-8859-1 with the buffer sizes of XMLReader.hpp *)
-Theorem T01_reader_inv_real : forall enc v11 lw fill chunks ops fuel, (enc = 1 \/ enc = 2 \/ enc = 3) ->
+(** instantiated: UTF-8, UTF-16 (either byte order) and ISO-8859-1 with the buffer sizes of XMLReader.hpp *)
+Theorem T01_reader_inv_real : forall enc v11 lw fill chunks ops fuel, (enc = 0 \/ enc = 1 \/ enc = 2 \/ enc = 3) ->
   Forall (fun ch => ch <> []) chunks -> (4 * length (concat chunks) + 2 <= fuel)%nat ->
   match run_ops (real_cfg enc v11 lw fill true) fuel (mk_reader chunks) ops with
   | (_, Some Fault, _) | (_, Some FuelOut, _) => False
@@ -39,9 +39,10 @@ Theorem T01_reader_inv_real : forall enc v11 lw fill chunks ops fuel, (enc = 1 \
   end.
 Proof.
   intros enc v11 lw fill chunks ops fuel He Hne Hf.
-  assert (HS : forall m, (1 <= m <= 4)%nat -> sizes_ok (real_cfg enc v11 lw fill true) m).
+  assert (HS : forall m, (1 <= m <= 6)%nat -> sizes_ok (real_cfg enc v11 lw fill true) m).
   { intros m Hm. unfold sizes_ok, real_cfg, mk_cfg. cbn [cbsz rbsz]. unfold kCharBufSize, kRawBufSize. lia. }
-  destruct He as [E|[E|E]]; subst enc.
+  destruct He as [E|[E|[E|E]]]; subst enc.
+  - exact (T01_reader_inv step_utf8 6 (real_cfg 0 v11 lw fill true) chunks ops fuel utf8_contract (HS 6%nat ltac:(lia)) eq_refl Hne Hf).
   - exact (T01_reader_inv (step_utf16 false) 2 (real_cfg 1 v11 lw fill true) chunks ops fuel (utf16_contract false) (HS 2%nat ltac:(lia)) eq_refl Hne Hf).
   - exact (T01_reader_inv (step_utf16 true) 2 (real_cfg 2 v11 lw fill true) chunks ops fuel (utf16_contract true) (HS 2%nat ltac:(lia)) eq_refl Hne Hf).
   - exact (T01_reader_inv step_latin1 1 (real_cfg 3 v11 lw fill true) chunks ops fuel latin1_contract (HS 1%nat ltac:(lia)) eq_refl Hne Hf).
